@@ -54,7 +54,10 @@ func (a *APK) writeOneFile(header *tar.Header, r io.Reader, allowOverwrite bool)
 			return fmt.Errorf("unable to remove existing file %s: %w", header.Name, err)
 		}
 	}
-	f, err := a.fs.OpenFile(header.Name, os.O_CREATE|os.O_EXCL|os.O_WRONLY, header.FileInfo().Mode())
+	// What the entry is says its typeflag: of the header's mode field only the permission, set-id and sticky
+	// bits go to the new file. File-type bits in the field (legal tar) would make the in-memory file systems
+	// take the new node for a symlink or a directory.
+	f, err := a.fs.OpenFile(header.Name, os.O_CREATE|os.O_EXCL|os.O_WRONLY, header.FileInfo().Mode()&^os.ModeType)
 	if err != nil {
 		return fmt.Errorf("error creating file %s: %w", header.Name, err)
 	}
